@@ -78,6 +78,7 @@ def strategy(tier: str):
             "warm_mut": st.one_of(st.just([]), st.lists(mut, min_size=1, max_size=3)),
             "debug_log": st.sampled_from((False, False, True)),
             "ctx": st.sampled_from(("same", "same", "copied", "thread")),
+            "bystander_config": st.sampled_from((False, False, False, True)),
         }
     )
 
@@ -125,6 +126,9 @@ def enumerate_cases(tier: str):
             # one long-lived schema encodes messages whose headers read the same once the separators are dropped
             for first, second in _collision_pairs():
                 yield {"version": version, "msg": list(second) + ["x"], "ending": "\n", "warmup": [], "pre_dumps": [list(first) + ["first"]]}
+        # other, differently configured codec and gateway objects exist in the process
+        for msg in ([1, 0, 1, 0, 2, "20.5"], [3, 255, 3, 0, 9, "a log line that is longer than a radio frame; with; delimiters"], [9, 1, 1, 1, 47, "p" * 300], [7, 255, 0, 0, 17, "2.2.0"]):
+            yield {"version": version, "msg": msg, "ending": "\n", "warmup": [], "bystander_config": True}
         for size in (51, 200, 65530, 65537, 70000, 200000):
             for debug in (False, True):
                 yield {"version": version, "msg": [12, 3, 1, 1, 47, "p" * size], "ending": "\n", "warmup": [], "debug_log": debug}
@@ -155,6 +159,34 @@ def _collision_pairs():
         for a_type, b_type in ((-1, -2), (0, 2**61 - 1), (5, 5 + 2**61 - 1), (2, 2 - (2**61 - 1)), (1, 1 + 2 * (2**61 - 1))):
             yield (node, child, command, ack, a_type), (node, child, command, ack, b_type)
             yield (node, child, command, ack, b_type), (node, child, command, ack, a_type)
+
+
+def _differently_configured_bystanders() -> int:
+    """Other codec / gateway objects in the process, built with every constructor option this harness does not know set to a few
+    sample values (a future option must configure the object it is given to, not its siblings). Returns how many were built."""
+    import dataclasses
+    import inspect
+
+    from aiomysensors.gateway import Config, Gateway
+
+    built = 0
+    marshmallow_params = {"self", "only", "exclude", "many", "context", "load_only", "dump_only", "partial", "unknown", "args", "kwargs"}
+    extra_schema = [n for n, p in inspect.signature(MessageSchema.__init__).parameters.items() if n not in marshmallow_params and p.kind in (p.POSITIONAL_OR_KEYWORD, p.KEYWORD_ONLY)]
+    extra_config = [f.name for f in dataclasses.fields(Config) if f.name not in ("metric", "persistence_file")]
+    for value in (1, 8, True, "x", 0):
+        for name in extra_schema:
+            try:
+                MessageSchema(**{name: value})
+                built += 1
+            except Exception:  # noqa: BLE001
+                pass
+        for name in extra_config:
+            try:
+                Gateway(env.RecordingTransport(), Config(**{name: value}))
+                built += 1
+            except Exception:  # noqa: BLE001
+                pass
+    return built
 
 
 def _nontrivial(msg: list) -> bool:
@@ -199,6 +231,8 @@ def _run_case(case: dict) -> Outcome:
         made.set_protocol(get_protocol(version))
         return made
 
+    if case.get("bystander_config"):
+        _differently_configured_bystanders()
     schema = env.in_ctx(ctx, build_schema)  # built in one task/thread, used in another
     if ctx not in (None, "same"):
         classes += (f"ctx={ctx}",)
